@@ -229,7 +229,11 @@ FormFullA(int n, int_t *nonz, float **nzval, int_t **rowind, int_t **colptr)
 	    ++marker[col];
 	}
 
-    new_nnz = *nonz * 2 - n;
+    /* each off-diagonal entry is mirrored; diagonal entries may be absent from the file */
+    new_nnz = *nonz * 2;
+    for (j = 0; j < n; ++j)
+	for (i = al_colptr[j]; i < al_colptr[j+1]; ++i)
+	    if ( al_rowind[i] == j ) --new_nnz;
     if ( !(a_colptr = intMalloc(n+1) ) )
 	ABORT("SUPERLU_MALLOC a_colptr[]");
     if ( !(a_rowind = intMalloc( new_nnz ) ) )
